@@ -24,7 +24,7 @@ import (
 // startAccountsRefresher starts a periodic job that refreshes the accounts known by Vouch.
 func (s *Service) startAccountsRefresher(ctx context.Context) error {
 	runtimeFunc := func(_ context.Context) (time.Time, error) {
-		if s.activeValidators == 0 {
+		if s.activeValidators.Load() == 0 {
 			s.log.Trace().Msg("No active validators; refreshing accounts next slot")
 			return time.Now().Add(s.slotDuration), nil
 		}
@@ -64,8 +64,8 @@ func (s *Service) refreshAccounts(ctx context.Context) {
 		s.log.Error().Err(err).Msg("Failed to obtain active validators on account refresh")
 		return
 	}
-	if len(validatorIndices) != s.activeValidators {
-		s.log.Info().Int("old_validators", s.activeValidators).Int("new_validators", len(validatorIndices)).Msg("Change in number of active validators")
-		s.activeValidators = len(validatorIndices)
+	if int64(len(validatorIndices)) != s.activeValidators.Load() {
+		s.log.Info().Int64("old_validators", s.activeValidators.Load()).Int("new_validators", len(validatorIndices)).Msg("Change in number of active validators")
+		s.activeValidators.Store(int64(len(validatorIndices)))
 	}
 }
